@@ -41,10 +41,10 @@ UnseededIsFunctionOfGlobalState(d, e) ==
 (* "so np.random.seed(s) before the call makes it reproducible": the two calls   *)
 (* at positions i < j directly follow np.random.seed of the same value           *)
 AfterSeedOf(h, i) == IF i > 1 /\ h[i - 1].op = "seed" THEN h[i - 1].sv ELSE -1
-ReseedReproduces(h, i, j) ==
-  (Unseeded(h[i]) /\ Unseeded(h[j]) /\ SameFA(h[i], h[j])
-     /\ AfterSeedOf(h, i) # -1 /\ AfterSeedOf(h, i) = AfterSeedOf(h, j))
-  => h[i].res = h[j].res
+ReseedRelated(h, i, j) ==
+  /\ Unseeded(h[i]) /\ Unseeded(h[j]) /\ SameFA(h[i], h[j])
+  /\ AfterSeedOf(h, i) # -1 /\ AfterSeedOf(h, i) = AfterSeedOf(h, j)
+ReseedReproduces(h, i, j) == ReseedRelated(h, i, j) => h[i].res = h[j].res
 
 ClauseNames == <<"GlobalUntouchedWhenSeeded", "PyRandomUntouched", "SameSeedSameResult",
                  "IntSeedEqualsRandomState", "UnseededIsFunctionOfGlobalState", "ReseedReproduces">>
@@ -86,6 +86,7 @@ CONSTANTS FNS,        \* function tokens (1..2)
           Libs,       \* abstract libraries explored ("good" and misbehaving ones)
           Canon,      \* explore one representative per renaming of fn/arg/seed tokens
           GenMode,    \* "none" | "all" (print every program ending in a call) | "full" (those of length MaxLen)
+                      \* | "reseed" (those whose last call is related to an earlier one by ReseedReproduces)
           Cost(_, _)  \* number of draws of fn on argument a (abstract)
 
 VARIABLES g,      \* numpy's global generator: <<seed it was last seeded with, draws since>>
@@ -147,6 +148,8 @@ Worth(op) == GenMode = "none" \/ ~(op = "seed" /\ LastOp \in {"seed", "draw"})
 Program(h) == [i \in 1..Len(h) |-> <<h[i].op, h[i].fn, h[i].a, h[i].sk, h[i].sv>>]
 Emit(h) == IF GenMode = "all" /\ h[Len(h)].op = "call" THEN PrintT("G|" \o ToJson(Program(h)))
            ELSE IF GenMode = "full" /\ Len(h) = MaxLen /\ h[Len(h)].op = "call" THEN PrintT("G|" \o ToJson(Program(h)))
+           ELSE IF GenMode = "reseed" /\ h[Len(h)].op = "call"
+                   /\ \E i \in 1..(Len(h) - 1) : ReseedRelated(h, i, Len(h)) THEN PrintT("G|" \o ToJson(Program(h)))
            ELSE TRUE
 
 Do(e) == /\ hist' = Append(hist, e)
